@@ -142,10 +142,14 @@ class rsync_syncer(base.ExternalSyncer):
 
         # zip limits to the shortest iterable
         ret = None
+        # put the address where the host is; the host name may also occur
+        # earlier in the uri (rsync://rsync/..., rsync://mirror@mirror/...)
+        host_start = len(self.uri) - len(self.uri[len("rsync://") :].split("@", 1)[-1])
+        host_end = host_start + len(self.hostname)
         for ip in islice(self._get_ips(), self.retries):
             cmd = [
                 self.binary_path,
-                self.uri.replace(self.hostname, ip, 1),
+                self.uri[:host_start] + ip + self.uri[host_end:],
                 self.basedir,
             ] + opts
 
